@@ -20,7 +20,7 @@ import (
 )
 
 func init() {
-	stats.Rule("C03", "rapid cases: one mapping per case (kind in {log, linear, cubic}; built from alpha in [1e-6,0.99], or from (gamma, offset) with the accuracy in the same range and offset in {0, default, +-10, +-1e6, +-2^30, fractional}), ~70 probe values in [MinIndexableValue, MaxIndexableValue]: LowerBound(i) +- 0..4 ulps for i uniform over the index range and for the 10 lowest/highest indexes, powers of two +- ulps, both range ends and <= 4 ulps inward, log-uniform fill; plus ordered pairs (adjacent floats, few ulps apart, adjacent bins, far apart) for monotonicity. Checked: |Value(Index(v))-v| <= (alpha+slack) v, index in int32, LowerBound(i) <= v <= LowerBound(i+1) up to slack, Index non-decreasing, RelativeAccuracy equals the configured alpha. Non-trivial: the case contains a value within 4 ulps of a bin edge, binade edge or range end (always by construction, so distinctness by hash of the printed case is the binding part).")
+	stats.Rule("C03", "rapid cases: one mapping per case (kind in {log, linear, cubic}; built from alpha in [1e-9,0.99], or from (gamma, offset) with the accuracy in the same range and offset in {0, default, +-10, +-1e6, +-2^30, fractional}), ~70 probe values in [MinIndexableValue, MaxIndexableValue]: LowerBound(i) +- 0..4 ulps for i uniform over the index range and for the 10 lowest/highest indexes, powers of two +- ulps, both range ends and <= 4 ulps inward, log-uniform fill; plus ordered pairs (adjacent floats, few ulps apart, adjacent bins, far apart) for monotonicity. Checked: |Value(Index(v))-v| <= (alpha+slack) v, index in int32, LowerBound(i) <= v <= LowerBound(i+1) up to slack, Index non-decreasing, RelativeAccuracy equals the configured alpha. Non-trivial: the case contains a value within 4 ulps of a bin edge, binade edge or range end (always by construction, so distinctness by hash of the printed case is the binding part).")
 	stats.Rule("C19", "rapid cases: mappings as in C03; binary Encode/Decode, protobuf ToProto/Marshal/Unmarshal/FromProto and EncodeProto (streaming builder) round-trips must give a mapping that Equals the original both ways, re-serializes to identical bytes and agrees bitwise on Index/Value/LowerBound/RelativeAccuracy/Min/MaxIndexableValue at probe values and indexes; the independent parser (refdec) must read the same kind/gamma/offset from the bytes; several mappings read in a row (binary, protobuf, sketch decoder; same base/offset across kinds included) must each come back as written; Equals must be reflexive, symmetric, false across kinds and for same-kind mappings whose accuracy differs by >= 0.1% or whose offsets clearly differ, true for identical parameters. Non-trivial: non-default offset or a cross-kind / near-alpha pair; distinct by hash of the printed case.")
 }
 
@@ -45,7 +45,7 @@ func defaultOffset(kind string, gamma float64) float64 {
 // drawAnyMapping draws a mapping as C03/C19 quantify: from alpha, or from (gamma, offset) as decoders rebuild them.
 func drawAnyMapping(t *rapid.T, cl *caseLog) (gen.MapSpec, mapping.IndexMapping) {
 	kind := rapid.SampledFrom(gen.MapKinds).Draw(t, "mkind")
-	alpha := gen.Alpha(1e-6, 0.99).Draw(t, "alpha")
+	alpha := gen.Alpha(c03AlphaLo, 0.99).Draw(t, "alpha")
 	if rapid.IntRange(0, 2).Draw(t, "fromalpha") == 0 {
 		spec := gen.MapSpec{Kind: kind, FromAlpha: true, Alpha: alpha, Nominal: alpha}
 		m, err := spec.Build()
@@ -183,7 +183,7 @@ func TestC03(t *testing.T) {
 		cl.label("kind:" + spec.Kind)
 		alpha := m.RelativeAccuracy()
 		cl.label(fmt.Sprintf("alpha:1e%d", int(math.Floor(math.Log10(alpha)))))
-		if spec.FromAlpha && !(math.Abs(alpha-spec.Alpha) <= 1e-14) {
+		if spec.FromAlpha && !(math.Abs(alpha-spec.Alpha) <= 2e-15) {
 			t.Fatalf("C03 %s: RelativeAccuracy() = %v, built with %v", spec, alpha, spec.Alpha)
 		}
 		if !spec.FromAlpha {
@@ -530,3 +530,6 @@ func TestC19(t *testing.T) {
 		cl.done(nontrivial)
 	})
 }
+
+// c03AlphaLo is the smallest accuracy parameter drawn for C03/C19.
+var c03AlphaLo = 1e-9
